@@ -248,6 +248,16 @@ example : ((runHist cfgSemi [.ctorFill 0 1 [⟨0, 2⟩, ⟨0, 1⟩], .reextent 0
 /-- assigning to a cell that was never constructed is undefined for such a type (what skipping that value construction leads to) -/
 example : (match assignCell cfgSemi 0 0 { blocks := [freshBlock 1 2] } with | .ub _ => true | _ => false) = true := by decide +kernel
 
+/-- `array<T, 0>` is run through the same executable model with `dim = 0` (`nElems [] = 1`: one block of one element).  The
+    theorems above do NOT cover it: they assume `c.OK`, i.e. `1 ≤ c.dim` (an emptied array must report 0 elements, and
+    `nElems (emptyExts 0) = 1`).  For the six 0-D forms the harness runs (no form leaves an empty array) the model is the
+    executable reference of the correspondence only.  A concrete 0-D history: construct from an element, copy-construct,
+    copy-assign, destroy both — two blocks of one element, both returned -/
+def cfgE0 : Cfg := { cfgE with dim := 0 }
+example : ¬ cfgE0.OK := fun h => absurd h.dim (by decide)
+example : ((runHist cfgE0 [.ctorFill 0 1 [], .ctorCopy 1 0, .assignCopy 0 1, .dtor 0, .dtor 1] (initSt 4)).map fun s =>
+    (s.blocks.map fun b => (b.size, b.freed), s.arrs)) = some ([(1, true), (1, true)], [none, none, none, none]) := by decide +kernel
+
 /-- the invariant is falsifiable: a block nobody owns violates it -/
 example : ¬ Good cfgE { blocks := [freshBlock 1 2], arrs := [none] } := by
   intro h
